@@ -148,6 +148,66 @@ Proof.
   unfold run_lines in R. unfold bytes, str in *. rewrite R. reflexivity.
 Qed.
 
+(* a v2 file whose zlib stream inflates without error never makes load raise zlib.error *)
+Lemma v2_file_not_zlib_err l0 l1 l2 l3 z body base :
+  find_nl l0 = None -> find_nl l1 = None -> find_nl l2 = None -> find_nl l3 = None ->
+  inflates z body ->
+  load [l0 ++ 10 :: l1 ++ 10 :: l2 ++ 10 :: l3 ++ 10 :: z] base <> IRaise ZlibErr.
+Proof.
+  intros F0 F1 F2 F3 I. rewrite load_single by exact O_zlib_stream. unfold load_spec.
+  rewrite (a_readline_line l0) by exact F0.
+  destruct (dec l0) as [s0|e] eqn:D0; cbn [ibind].
+  2:{ intro H. inversion H; subst. apply dec_err in D0. discriminate. }
+  destruct (str_eqb (rstrip s0) hdr_v1).
+  - unfold load_v1_spec. rewrite (a_readline_line l1) by exact F1.
+    destruct (dec l1) as [s1|e] eqn:D1; cbn [ibind].
+    2:{ intro H. inversion H; subst. apply dec_err in D1. discriminate. }
+    rewrite (a_readline_line l2) by exact F2.
+    destruct (dec l2) as [s2|e] eqn:D2; cbn [ibind].
+    2:{ intro H. inversion H; subst. apply dec_err in D2. discriminate. }
+    match goal with |- (dob objs <- ?X; _) <> _ => destruct X as [o|e] eqn:F end; cbn [ibind]; [discriminate|].
+    intro H. inversion H; subst. apply fold_lines_err in F. destruct F as [[o [l F]]|F].
+    + apply v1_step_err in F. discriminate.
+    + unfold a_readlines in F. apply decode_lines_err in F. discriminate.
+  - destruct (str_eqb (rstrip s0) hdr_v2); [|discriminate].
+    unfold load_v2_spec.
+    rewrite (a_readline_line l1) by exact F1.
+    destruct (dec l1) as [s1|e] eqn:D1; cbn [ibind].
+    2:{ intro H. inversion H; subst. apply dec_err in D1. discriminate. }
+    rewrite (a_readline_line l2) by exact F2.
+    destruct (dec l2) as [s2|e] eqn:D2; cbn [ibind].
+    2:{ intro H. inversion H; subst. apply dec_err in D2. discriminate. }
+    rewrite (a_readline_line l3) by exact F3.
+    destruct (dec l3) as [s3|e] eqn:D3; cbn [ibind].
+    2:{ intro H. inversion H; subst. apply dec_err in D3. discriminate. }
+    destruct (negb (contains zlib_marker s3)); [discriminate|].
+    unfold a_rcl, inflates in *. destruct (dstep dinit z) as [st o]. destruct I as [I1 I2]. rewrite I1.
+    match goal with |- (dob objs <- ?X; _) <> _ => destruct X as [ob|e] eqn:F end; cbn [ibind]; [discriminate|].
+    intro H. inversion H; subst. apply fold_lines_err in F. destruct F as [[ob [l F]]|F]; [discriminate|].
+    apply decode_lines_err in F. discriminate.
+Qed.
+
+(* C18_bad_line_isolated for every chunking of the two files *)
+Theorem bad_line_isolated_v2_chunked l0 l1 l2 l3 z z' A bad B s base cs cs' :
+  find_nl l0 = None -> find_nl l1 = None -> find_nl l2 = None -> find_nl l3 = None ->
+  (exists s0, decode l0 = Some s0 /\ rstrip s0 = hdr_v2) ->
+  inflates z (A ++ bad ++ 10 :: B) -> inflates z' (A ++ B) ->
+  aligned A -> find_nl bad = None -> decode bad = Some s -> v2_malformed s ->
+  live cs = l0 ++ 10 :: l1 ++ 10 :: l2 ++ 10 :: l3 ++ 10 :: z ->
+  live cs' = l0 ++ 10 :: l1 ++ 10 :: l2 ++ 10 :: l3 ++ 10 :: z' ->
+  load cs base = load cs' base.
+Proof.
+  intros F0 F1 F2 F3 H0 I I' AL FB D M L L'.
+  assert (E := bad_line_isolated_v2 l0 l1 l2 l3 z z' A bad B s base F0 F1 F2 F3 H0 I I' AL FB D M).
+  assert (N := v2_file_not_zlib_err l0 l1 l2 l3 z _ base F0 F1 F2 F3 I).
+  assert (N' := v2_file_not_zlib_err l0 l1 l2 l3 z' _ base F0 F1 F2 F3 I').
+  destruct (chunking_independent dstate dinit dstep dflush derr decode match_line O_zlib_stream cs base)
+    as [C|[C _]]; rewrite L in C; [|contradiction].
+  destruct (chunking_independent dstate dinit dstep dflush derr decode match_line O_zlib_stream cs' base)
+    as [C'|[C' _]]; rewrite L' in C'; [|contradiction].
+  rewrite C, C'. exact E.
+Qed.
+
 (* ---------------- format v1 ---------------- *)
 
 Lemma v1_hdr_ne : str_eqb hdr_v1 hdr_v1 = true.
